@@ -179,6 +179,216 @@ static void print_oracle(int coefonly, unsigned w, unsigned h, int nc)
   printf(" # %s exp=%ux%ux%d\n", ob, w, h, nc);
 }
 
+
+/* ------------------------------------------------- exact-sample oracle (lossless) */
+/* decode and compare every sample with exp16 (already reduced to what the decoder must return) */
+static void oracle_exact(const unsigned char *data, size_t len, const unsigned short *exp16, unsigned w, unsigned h, int nc,
+                         char *out, size_t outsz)
+{
+  struct jpeg_decompress_struct d; struct jpeg_error_mgr e;
+  int eoi = len >= 2 && data[len - 2] == 0xFF && data[len - 1] == 0xD9;
+  volatile int n = snprintf(out, outsz, "len=%lu eoi=%d ", (unsigned long)len, eoi);
+  void *volatile rowbuf = NULL; volatile long nbad = 0;
+  d.err = jpeg_std_error(&e); e.error_exit = my_exit; e.emit_message = my_emit; e.output_message = my_output;
+  jpeg_create_decompress(&d);
+  if (setjmp(jb)) { snprintf(out + n, outsz - n, "decerr=%s", err_name(last_err)); jpeg_destroy_decompress(&d); free(rowbuf); return; }
+  jpeg_mem_src(&d, data, (unsigned long)len);
+  jpeg_read_header(&d, TRUE);
+  d.out_color_space = d.jpeg_color_space;
+  jpeg_start_decompress(&d);
+  {
+    size_t rowlen = (size_t)d.output_width * d.output_components, k;
+    rowbuf = malloc(rowlen * 2 + 16);
+    while (d.output_scanline < d.output_height) {
+      unsigned y = d.output_scanline;
+      if (d.data_precision <= 8) { JSAMPROW r = (JSAMPROW)rowbuf; jpeg_read_scanlines(&d, &r, 1); }
+      else if (d.data_precision <= 12) { J12SAMPROW r = (J12SAMPROW)rowbuf; jpeg12_read_scanlines(&d, &r, 1); }
+      else { J16SAMPROW r = (J16SAMPROW)rowbuf; jpeg16_read_scanlines(&d, &r, 1); }
+      if (d.output_width == w && d.output_components == nc && y < h)
+        for (k = 0; k < rowlen; k++) {
+          unsigned got = d.data_precision <= 8 ? ((unsigned char *)rowbuf)[k] : ((unsigned short *)rowbuf)[k];
+          if (got != exp16[(size_t)y * rowlen + k]) nbad++;
+        }
+    }
+  }
+  jpeg_finish_decompress(&d);
+  snprintf(out + n, outsz - n, "dec=%ux%ux%d warn=%ld scans=%d exact=%d", d.image_width, d.image_height, d.num_components,
+           e.num_warnings, d.input_scan_number, nbad == 0);
+  jpeg_destroy_decompress(&d); free(rowbuf);
+}
+
+/* engineered samples: every difference category, incl. 2^(prec-1) steps (category 16 at 16 bits) */
+static void make_samples(unsigned short *img, unsigned w, unsigned h, int nc, int prec, int pattern)
+{
+  unsigned x, y; int c; unsigned max = (1u << prec) - 1, half = 1u << (prec - 1), acc = 0, k = 0;
+  for (y = 0; y < h; y++) for (x = 0; x < w; x++) for (c = 0; c < nc; c++) {
+    unsigned v;
+    switch (pattern) {
+    case 0: v = rnd(); break;
+    case 1: v = ((x + y + c) & 1) ? max : 0; break;                       /* +-max */
+    case 2: v = (1000 + 3 * y + c) + ((x & 1) ? half : 0); break;          /* +-2^(prec-1) horizontally */
+    case 3: v = (x * 7 + y) + ((x % 4 == 3) ? half : 0); break;            /* ramp, every 4th column offset */
+    case 4: acc += ((k & 1) ? (unsigned)-(int)(1u << (k % prec)) : (1u << (k % prec))) + (k % 3); k++; v = acc; break; /* every category */
+    case 5: v = half; break;                                              /* constant */
+    case 6: v = (500 + x + c) + ((y & 1) ? half : 0); break;               /* +-2^(prec-1) vertically */
+    case 7: v = ((x / 2 + y) & 1) ? half : 0; break;                       /* 0 / 2^(prec-1) blocks */
+    default: v = (x == 0 || y == 0) ? max : ((x + y) & 1 ? half + 1 : 1); break;
+    }
+    img[((size_t)y * w + x) * nc + c] = (unsigned short)(v & max);
+  }
+}
+
+/* ll API PREC PSV PT W H NC RI PATTERN SEED : lossless compression of engineered samples */
+static void do_ll(char *p)
+{
+  int api = (int)nextl(&p), prec = (int)nextl(&p), psv = (int)nextl(&p), pt = (int)nextl(&p);
+  unsigned W = (unsigned)nextl(&p), H = (unsigned)nextl(&p); int nc = (int)nextl(&p), ri = (int)nextl(&p);
+  int pattern = (int)nextl(&p); char ob[300]; size_t n = (size_t)W * H * nc, k;
+  unsigned short *img, *expd; unsigned char *img8 = NULL;
+  prng = (unsigned)nextl(&p);
+  if (prec < 2 || prec > 16 || nc < 1 || nc > 4 || n == 0 || n > (1u << 24)) { printf("skip # -\n"); return; }
+  img = malloc(n * 2 + 16); expd = malloc(n * 2 + 16);
+  make_samples(img, W, H, nc, prec, pattern);
+  for (k = 0; k < n; k++) expd[k] = (pt >= 0 && pt < 16) ? (unsigned short)((img[k] >> pt) << pt) : img[k];
+  if (prec <= 8) { img8 = malloc(n + 16); for (k = 0; k < n; k++) img8[k] = (unsigned char)img[k]; }
+  if (api == 1) {
+    tjhandle h = tj3Init(TJINIT_COMPRESS); unsigned char *jpg = NULL; size_t jsz = 0; int r, pf = nc == 1 ? TJPF_GRAY : nc == 3 ? TJPF_RGB : TJPF_CMYK;
+    if (nc == 2) { printf("skip # -\n"); goto done; }
+    tj3Set(h, TJPARAM_PRECISION, prec); tj3Set(h, TJPARAM_LOSSLESS, 1);
+    r = tj3Set(h, TJPARAM_LOSSLESSPSV, psv) | tj3Set(h, TJPARAM_LOSSLESSPT, pt) | (ri ? tj3Set(h, TJPARAM_RESTARTROWS, ri) : 0);
+    if (r == 0) {
+      if (prec <= 8) r = tj3Compress8(h, img8, W, 0, H, pf, &jpg, &jsz);
+      else if (prec <= 12) r = tj3Compress12(h, (short *)img, W, 0, H, pf, &jpg, &jsz);
+      else r = tj3Compress16(h, img, W, 0, H, pf, &jpg, &jsz);
+    }
+    if (r != 0) printf("any # tjerr\n");
+    else { oracle_exact(jpg, jsz, expd, W, H, nc, ob, sizeof(ob)); printf("any # %s exp=%ux%ux%d\n", ob, W, H, nc); }
+    tj3Free(jpg); tj3Destroy(h);
+  } else {
+    fresh_compress();
+    if (setjmp(jb)) { printf("err %s # -\n", err_name(last_err)); jpeg_destroy_compress(&cc); goto done; }
+    set_dest(&cc, 4096);
+    cc.image_width = W; cc.image_height = H; cc.input_components = nc;
+    cc.in_color_space = nc == 1 ? JCS_GRAYSCALE : nc == 3 ? JCS_RGB : JCS_UNKNOWN;
+    cc.data_precision = prec;
+    jpeg_set_defaults(&cc);
+    jpeg_enable_lossless(&cc, psv, pt);
+    cc.restart_in_rows = ri;
+    jpeg_start_compress(&cc, TRUE);
+    while (cc.next_scanline < cc.image_height) {
+      size_t off = (size_t)cc.next_scanline * W * nc;
+      if (prec <= 8) { JSAMPROW r = img8 + off; jpeg_write_scanlines(&cc, &r, 1); }
+      else if (prec <= 12) { J12SAMPROW r = (J12SAMPROW)(img + off); jpeg12_write_scanlines(&cc, &r, 1); }
+      else { J16SAMPROW r = img + off; jpeg16_write_scanlines(&cc, &r, 1); }
+    }
+    jpeg_finish_compress(&cc);
+    jpeg_destroy_compress(&cc);
+    oracle_exact(dest.data, dest.len, expd, W, H, nc, ob, sizeof(ob));
+    printf("ok # %s exp=%ux%ux%d\n", ob, W, H, nc);
+  }
+done:
+  free(img); free(expd); free(img8);
+}
+
+/* --------------------------------------------- several images on ONE compression object */
+static int oracle_bad(const char *ob, unsigned w, unsigned h, int nc)
+{
+  char want[64];
+  snprintf(want, sizeof(want), "dec=%ux%ux%d warn=0 ", w, h, nc);
+  return !(strstr(ob, "eoi=1") && strstr(ob, want));
+}
+
+/* seq FILLER | CS NC PROG OPT PREC W H ; ...   CS 0 gray, 1 RGB->YCbCr, 2 CMYK, 3 CMYK->YCCK, 4 unknown(NC), 5 RGB->RGB */
+static void do_seq(char *p)
+{
+  int filler = (int)nextl(&p), first = 1; char worst[300] = "", ob[300] = "-"; unsigned ew = 0, eh = 0; int enc = 0, anybad = 0;
+  volatile int alive = 1;
+  p = skip_bar(p);
+  fresh_compress();
+  if (setjmp(jb)) { printf("%serr %s # -\n", first ? "" : " ; ", err_name(last_err)); jpeg_destroy_compress(&cc); return; }
+  if (filler > 0) (void)(*cc.mem->alloc_small) ((j_common_ptr)&cc, JPOOL_PERMANENT, (size_t)filler);
+  for (;;) {
+    int cs, nc, prog, opt, prec, i; unsigned W, H;
+    while (*p == ' ' || *p == ';') p++;
+    if (*p == 0 || *p == '\n') break;
+    cs = (int)nextl(&p); nc = (int)nextl(&p); prog = (int)nextl(&p); opt = (int)nextl(&p); prec = (int)nextl(&p);
+    W = (unsigned)nextl(&p); H = (unsigned)nextl(&p);
+    prng = (unsigned)(cs * 131 + nc * 17 + W);
+    if (setjmp(jb)) {       /* an error aborts this image only; the object is re-used */
+      printf("%simg err %s", first ? "" : " ; ", err_name(last_err)); first = 0;
+      jpeg_abort_compress(&cc);
+      continue;
+    }
+    set_dest(&cc, 4096);
+    cc.image_width = W; cc.image_height = H;
+    cc.input_components = cs == 0 ? 1 : (cs == 1 || cs == 5) ? 3 : (cs == 2 || cs == 3) ? 4 : nc;
+    cc.in_color_space = cs == 0 ? JCS_GRAYSCALE : (cs == 1 || cs == 5) ? JCS_RGB : (cs == 2 || cs == 3) ? JCS_CMYK : JCS_UNKNOWN;
+    cc.data_precision = prec;
+    jpeg_set_defaults(&cc);
+    if (cs == 3) jpeg_set_colorspace(&cc, JCS_YCCK);
+    if (cs == 5) jpeg_set_colorspace(&cc, JCS_RGB);
+    cc.optimize_coding = (boolean)opt;
+    if (prog) jpeg_simple_progression(&cc);
+    printf("%simg ns=%d", first ? "" : " ; ", prog ? cc.num_scans : 1); first = 0;
+    if (prog) {
+      int k;
+      for (k = 0; k < cc.num_scans; k++) {
+        const jpeg_scan_info *s = &cc.scan_info[k];
+        printf(" %d:", s->comps_in_scan);
+        for (i = 0; i < s->comps_in_scan && i < MAX_COMPS_IN_SCAN; i++) printf("%s%d", i ? "," : "", s->component_index[i]);
+        printf(":%d:%d:%d:%d", s->Ss, s->Se, s->Ah, s->Al);
+      }
+    }
+    jpeg_start_compress(&cc, TRUE);
+    feed_image(&cc);
+    jpeg_finish_compress(&cc);
+    printf(" ok");
+    oracle(dest.data, dest.len, 0, ob, sizeof(ob));
+    if (oracle_bad(ob, W, H, cc.num_components) && !anybad) { anybad = 1; strcpy(worst, ob); ew = W; eh = H; enc = cc.num_components; }
+    if (!anybad) { ew = W; eh = H; enc = cc.num_components; }
+  }
+  jpeg_destroy_compress(&cc);
+  (void)alive;
+  printf(" # %s exp=%ux%ux%d\n", anybad ? worst : ob, ew, eh, enc);
+}
+
+/* tjseq | PREC W H PF SEED params... ; ...  : several images on ONE TurboJPEG handle */
+static void do_tjseq(char *p)
+{
+  tjhandle h = tj3Init(TJINIT_COMPRESS); char worst[300] = "", ob[300] = "-"; int anybad = 0, W = 0, H = 0, eW = 0, eH = 0;
+  p = skip_bar(p);
+  for (;;) {
+    int prec, pf, seed, r; unsigned char *jpg = NULL; size_t jsz = 0, n, k; void *img;
+    while (*p == ' ' || *p == ';') p++;
+    if (*p == 0 || *p == '\n') break;
+    prec = (int)nextl(&p); W = (int)nextl(&p); H = (int)nextl(&p); pf = (int)nextl(&p); seed = (int)nextl(&p);
+    for (;;) {
+      int par, val;
+      while (*p == ' ') p++;
+      if (*p == ';' || *p == 0 || *p == '\n') break;
+      par = (int)strtol(p, &p, 10); if (*p == '=') p++; val = (int)strtol(p, &p, 10);
+      tj3Set(h, par, val);
+    }
+    prng = (unsigned)seed;
+    n = (size_t)W * H * tjPixelSize[pf];
+    img = malloc(n * 2 + 16);
+    for (k = 0; k < n; k++) { if (prec <= 8) ((unsigned char *)img)[k] = rnd() & ((1 << prec) - 1); else ((unsigned short *)img)[k] = rnd() & ((1 << prec) - 1); }
+    if (prec <= 8) r = tj3Compress8(h, img, W, 0, H, pf, &jpg, &jsz);
+    else if (prec <= 12) r = tj3Compress12(h, img, W, 0, H, pf, &jpg, &jsz);
+    else r = tj3Compress16(h, img, W, 0, H, pf, &jpg, &jsz);
+    free(img);
+    if (r == 0) {
+      oracle(jpg, jsz, 0, ob, sizeof(ob));
+      if (!anybad) { eW = W; eH = H; }
+      if (!(strstr(ob, "eoi=1") && strstr(ob, "warn=0 ")) && !anybad) { anybad = 1; strcpy(worst, ob); }
+    }
+    else if (getenv("C17_DEBUG")) fprintf(stderr, "tjseq: %s\n", tj3GetErrorStr(h));
+    tj3Free(jpg);
+  }
+  tj3Destroy(h);
+  printf("any # %s exp=%dx%dx0\n", anybad ? worst : ob, eW, eH);
+}
+
 /* ---------------------------------------------------------------- setup stream */
 static void do_setup(char *p)
 {
@@ -404,6 +614,9 @@ int main(void)
     else if (!strcmp(cmd, "qt")) do_qt(p);
     else if (!strcmp(cmd, "tjset")) do_tjset(p);
     else if (!strcmp(cmd, "tjc")) do_tjc(p);
+    else if (!strcmp(cmd, "ll")) do_ll(p);
+    else if (!strcmp(cmd, "seq")) do_seq(p);
+    else if (!strcmp(cmd, "tjseq")) do_tjseq(p);
     else printf("? # -\n");
     alarm(0);
   }
